@@ -1155,7 +1155,20 @@ class PyFlow:
             out = []
             for q, b in self.ev(e.value, p, depth, no_effect=no_effect):
                 if isinstance(e.slice, ast.Slice):
-                    out.append((q, Poly.atom(("slice", b, src_of(e.slice)))))
+                    # bounds by value, not by spelling: x[:n] with n = p.lexpos(k) is x[:p.lexpos(k)]
+                    states: List[Tuple[Path, List[Optional[Poly]]]] = [(q, [])]
+                    for part in (e.slice.lower, e.slice.upper, e.slice.step):
+                        nxt: List[Tuple[Path, List[Optional[Poly]]]] = []
+                        for q_, got in states:
+                            if part is None:
+                                nxt.append((q_, got + [None]))
+                            else:
+                                for q3, v_ in self.ev(part, q_, depth, no_effect=no_effect):
+                                    nxt.append((q3, got + [v_]))
+                        states = nxt
+                    for q_, (lo_, hi_, st_) in states:
+                        txt = ("" if lo_ is None else show(lo_)) + ":" + ("" if hi_ is None else show(hi_)) + ("" if st_ is None else ":" + show(st_))
+                        out.append((q_, Poly.atom(("slice", b, txt, (lo_, hi_, st_)))))
                     continue
                 for q2, i in self.ev(e.slice, q, depth, no_effect=no_effect):
                     a = single_atom(b)
